@@ -564,4 +564,98 @@ theorem exec_append (fl : Flags) (pre post : List Op) :
     intro s
     simp only [List.cons_append, exec, ih, List.append_assoc]
 
+/-! ### the 255 callback -/
+
+theorem exitOutcome_host255 (c : Cmd) (h : exitOutcome c = .host255) :
+    c.remote = true ∧ c.cb255 = true ∧ c.code = 255 := by
+  unfold exitOutcome at h
+  split at h
+  · rename_i hc
+    simp only [Bool.and_eq_true, beq_iff_eq] at hc
+    exact ⟨hc.1.1, hc.2, hc.1.2⟩
+  · cases h
+
+theorem reap_host255 (now : Int) (ex : List Nat) (ka : Bool) (rel : List Nat) (rs : List Run) (id : Nat)
+    (h : Ev.cb id .host255 ∈ (reap now ex ka rel rs).2) :
+    ∃ r ∈ rs, r.cmd.id = id ∧ r.cmd.remote = true ∧ r.cmd.cb255 = true ∧ r.cmd.code = 255 := by
+  induction rs with
+  | nil => simp [reap] at h
+  | cons r rs ih =>
+    simp only [reap] at h
+    split at h
+    · simp only [List.mem_cons] at h
+      rcases h with h | h
+      · injection h with h1 h2
+        split at h2
+        · cases h2
+        · exact ⟨r, by simp, h1.symm, exitOutcome_host255 _ h2.symm⟩
+      · obtain ⟨r', hr', hh⟩ := ih h
+        exact ⟨r', List.mem_cons_of_mem _ hr', hh⟩
+    · split at h
+      · simp only [List.mem_cons] at h
+        rcases h with h | h
+        · injection h with _ h2; cases h2
+        · obtain ⟨r', hr', hh⟩ := ih h
+          exact ⟨r', List.mem_cons_of_mem _ hr', hh⟩
+      · obtain ⟨r', hr', hh⟩ := ih h
+        exact ⟨r', List.mem_cons_of_mem _ hr', hh⟩
+
+theorem launch_no_host255 (fl : Flags) (size : Nat) (dl : Int) (st : Bool) (q : List Cmd) (id : Nat) :
+    ∀ rs : List Run, Ev.cb id .host255 ∉ (launch fl size dl st q rs).2.2 := by
+  induction q with
+  | nil => intro rs; simp [launch]
+  | cons c q ih =>
+    intro rs h
+    simp only [launch] at h
+    split at h
+    · split at h
+      · split at h
+        · exact ih rs h
+        · simp only [List.mem_cons] at h
+          rcases h with h | h
+          · injection h with _ h2; cases h2
+          · exact ih rs h
+      · split at h
+        · simp only [List.mem_cons] at h
+          rcases h with h | h
+          · injection h with _ h2; cases h2
+          · exact ih rs h
+        · simp only [List.mem_cons] at h
+          rcases h with h | h
+          · cases h
+          · exact ih _ h
+    · simp at h
+
+theorem doProcess_host255 (fl : Flags) (s : State) (ex : List Nat) (ka : Bool) (id : Nat)
+    (h : Ev.cb id .host255 ∈ (doProcess fl s ex ka).2) :
+    ∃ r ∈ s.running, r.cmd.id = id ∧ r.cmd.remote = true ∧ r.cmd.cb255 = true ∧ r.cmd.code = 255 := by
+  simp only [doProcess, List.mem_append] at h
+  rcases h with h | h
+  · exact reap_host255 _ _ _ _ _ _ h
+  · exact absurd h (launch_no_host255 _ _ _ _ _ _ _)
+
+theorem step_host255 (fl : Flags) (s : State) (op : Op) (id : Nat) (h : Ev.cb id .host255 ∈ (step fl s op).2) :
+    ∃ r ∈ s.running, r.cmd.id = id ∧ r.cmd.remote = true ∧ r.cmd.cb255 = true ∧ r.cmd.code = 255 := by
+  cases op with
+  | put c =>
+    simp only [step] at h
+    split at h
+    · simp only [List.mem_singleton] at h
+      injection h with _ h2; cases h2
+    · simp at h
+  | process ex => exact doProcess_host255 fl s ex false id (by simpa [step] using h)
+  | advance dt => simp [step] at h
+  | release i => simp [step] at h
+  | setStopping => simp [step] at h
+  | close => simp [step] at h
+  | terminate ex =>
+    simp only [step, List.mem_append] at h
+    rcases h with h | h
+    · split at h
+      · simp at h
+      · simp only [List.mem_map] at h
+        obtain ⟨c, _, hc⟩ := h
+        injection hc with _ h2; cases h2
+    · exact doProcess_host255 fl { s with stopping := true, closed := true, queue := [] } ex true id h
+
 end CylcModel.SubProc
